@@ -235,6 +235,8 @@ type AssertSpec struct {
 
 func sp(s string) *string { return &s }
 
+var confMethodN int
+
 func buildAssertion(s AssertSpec) *Node {
 	a := E("saml", "Assertion", A("Version", "2.0", "ID", s.ID, "IssueInstant", s.Issue))
 	if s.Issuer != nil {
@@ -243,7 +245,21 @@ func buildAssertion(s AssertSpec) *Node {
 	if !s.NoSubject {
 		subj := E("saml", "Subject", nil, E("saml", "NameID", A("Format", "urn:oasis:names:tc:SAML:2.0:nameid-format:transient"), T(s.NameID)))
 		for _, c := range s.Confs {
-			sc := E("saml", "SubjectConfirmation", A("Method", "urn:oasis:names:tc:SAML:2.0:cm:bearer"))
+			// The confirmation Method is not part of any decision (the library reads every confirmation
+			// alike): it rotates over the methods of the specification, and absent, in all generated
+			// documents, so that every check on a confirmation is also exercised on non-bearer ones.
+			confMethodN++
+			var sc *Node
+			switch confMethodN % 7 {
+			case 2:
+				sc = E("saml", "SubjectConfirmation", A("Method", "urn:oasis:names:tc:SAML:2.0:cm:holder-of-key"))
+			case 4:
+				sc = E("saml", "SubjectConfirmation", A("Method", "urn:oasis:names:tc:SAML:2.0:cm:sender-vouches"))
+			case 6:
+				sc = E("saml", "SubjectConfirmation", nil)
+			default:
+				sc = E("saml", "SubjectConfirmation", A("Method", "urn:oasis:names:tc:SAML:2.0:cm:bearer"))
+			}
 			if !c.NoData {
 				d := E("saml", "SubjectConfirmationData", nil)
 				if c.IRT != nil {
